@@ -181,6 +181,8 @@ def make_exec(ir, opts, tier):
             k, v = pair.split(':')
             ks = [n for n in ir['funcs'] if n == k or n.endswith('.' + k) or n.endswith('/' + k)]
             vs = [n for n in ir['funcs'] if n.endswith('.' + v)]
+            if not ks and '/' in k:
+                ks = [k]   # a function without exported body (blocked package): matched by its exact name
             if len(ks) != 1 or len(vs) != 1:
                 raise RuntimeError('override %s: %d targets, %d stubs' % (pair, len(ks), len(vs)))
             ov[ks[0]] = vs[0]
